@@ -307,6 +307,16 @@ KINDS = [("DP", 0), ("DP", 1), ("P", 1), ("DUAL", 0), ("DUAL", 1), ("RWG", 0), (
 
 def supports(ne, thorough, seed):
     subs = [None]
+    if ne > 14:
+        # 2^ne subsets cannot be enumerated (32 elements: the list exhausted 60 GB and the OOM killer left the worker pool hanging): sample directly
+        rng = np.random.RandomState(seed)
+        out = []
+        while len(out) < (120 if thorough else 12):
+            r = int(rng.randint(1, ne))
+            c = sorted(int(x) for x in rng.choice(ne, size=r, replace=False))
+            if c not in out:
+                out.append(c)
+        return subs + sorted(out)
     allsub = [list(c) for r in range(1, ne) for c in itertools.combinations(range(ne), r)]
     if len(allsub) <= (300 if thorough else 20):
         return subs + allsub
